@@ -997,6 +997,15 @@ func (t *fnTrans) loopPos(h int) int {
 	return best
 }
 
+func sortedLoopHeads(m map[int]*loopInfo) []int {
+	var hs []int
+	for h := range m {
+		hs = append(hs, h)
+	}
+	sort.Ints(hs)
+	return hs
+}
+
 // ancestors of block b in the DAG (including b).
 func (t *fnTrans) ancestors(b int) map[int]bool {
 	anc := map[int]bool{}
@@ -1330,6 +1339,27 @@ func (t *fnTrans) block(b *ssa.BasicBlock) {
 	for si, s := range b.Succs {
 		if l2 := t.loops[s.Index]; l2 != nil {
 			t.loopEdge(b, si, l2, t.backEdge[[2]int{b.Index, s.Index}])
+		}
+	}
+	// `exit` clauses: obligations on every edge that leaves a loop (exhaustion, break, goto out of it)
+	for si, s := range b.Succs {
+		for _, h := range sortedLoopHeads(t.loops) {
+			li := t.loops[h]
+			if li.spec == nil || len(li.spec.Exits) == 0 || !li.body[b.Index] || li.body[s.Index] {
+				continue
+			}
+			cond := t.edgeCondLocal(b, si)
+			env := t.localEnv(t.cur, b)
+			env.loopOf = li
+			for i, c := range li.spec.Exits {
+				nm := c.Name
+				if nm == "" {
+					nm = fmt.Sprint(i)
+				}
+				t.curUses = t.evalUses(c.Uses, env)
+				t.oblige("invariant", fmt.Sprintf("loop%d.exit.%s", li.ordinal, nm), c.Src, fmt.Sprintf("(=> %s %s)", cond, env.boolOf(c.Expr)), b.Instrs[len(b.Instrs)-1].Pos())
+			}
+			t.curUses = nil
 		}
 	}
 }
